@@ -406,6 +406,8 @@ func run(r *Rng, tier string, n int) {
 	// (a template that is filled in later): the pointed-to values must be fresh too, and a later write to one
 	// side must not show through the other
 	emptyContent(r)
+	sectionCapacity()
+	observedDuringPack()
 	// option and parameter types on their own (the table has one row per type)
 	opts := []dns.EDNS0{
 		&dns.EDNS0_SUBNET{Code: dns.EDNS0SUBNET, Family: 2, SourceNetmask: 64, Address: net.ParseIP("2001:db8::")},
@@ -502,6 +504,130 @@ func (d *c16Priv) Copy(dst dns.PrivateRdata) error {
 	return nil
 }
 func (d *c16Priv) Len() int { return len(d.B) }
+
+// sectionCapacity: the sections of a message are slices of the caller's: Answer = zone[:2] of a longer array,
+// Ns and Extra likewise. What lies beyond their length (within the capacity) is the caller's, not the
+// message's: no read-only operation may write there.
+func sectionCapacity() {
+	mk := func(owner string, i int) dns.RR {
+		return &dns.A{Hdr: dns.RR_Header{Name: owner, Rrtype: dns.TypeA, Class: 1, Ttl: 60}, A: []byte{192, 0, 2, byte(i)}}
+	}
+	for _, withOpt := range []bool{false, true} {
+		zone := []dns.RR{mk("www.example.org.", 1), mk("www.example.org.", 2), mk("www.example.org.", 3), mk("www.example.org.", 4)}
+		auth := []dns.RR{&dns.NS{Hdr: dns.RR_Header{Name: "example.org.", Rrtype: dns.TypeNS, Class: 1, Ttl: 60}, Ns: "ns1.example.org."}, mk("spare-ns.example.org.", 9)}
+		extra := []dns.RR{mk("ns1.example.org.", 5), mk("spare-extra.example.org.", 6), mk("spare-extra.example.org.", 7)}
+		if withOpt {
+			extra[0] = &dns.OPT{Hdr: dns.RR_Header{Name: ".", Rrtype: dns.TypeOPT, Class: 1232}}
+		}
+		snap := func() string {
+			var sb strings.Builder
+			for _, l := range [][]dns.RR{zone, auth, extra} {
+				for _, rr := range l {
+					sb.WriteString(rr.String())
+					sb.WriteByte('\n')
+				}
+				sb.WriteString("--\n")
+			}
+			return sb.String()
+		}
+		ops := map[string]func(m *dns.Msg){
+			"Len":        func(m *dns.Msg) { _ = m.Len() },
+			"Pack":       func(m *dns.Msg) { _, _ = m.Pack() },
+			"PackBuffer": func(m *dns.Msg) { _, _ = m.PackBuffer(make([]byte, 4096)) },
+			"String":     func(m *dns.Msg) { _ = m.String() },
+			"Copy":       func(m *dns.Msg) { _ = m.Copy() },
+			"IsEdns0":    func(m *dns.Msg) { _ = m.IsEdns0() },
+		}
+		for name, op := range ops {
+			for _, compress := range []bool{false, true} {
+				before := snap()
+				m := new(dns.Msg)
+				m.SetQuestion("www.example.org.", dns.TypeA)
+				m.Response, m.Compress = true, compress
+				m.Answer, m.Ns, m.Extra = zone[:2], auth[:1], extra[:1]
+				if Protect(func() string { op(m); return "ok" }) != "ok" {
+					continue
+				}
+				st["section_capacity_checked"]++
+				if after := snap(); after != before {
+					Viol("C16/readonly-mutates/beyond-section-length/"+name, name+" wrote into the caller's array beyond the length of a section slice of the message", map[string]string{"before": before, "after": after})
+					return
+				}
+			}
+		}
+	}
+}
+
+// observedDuringPack: what the message's own fields are WHILE a read-only operation runs (a private-use RDATA is
+// called back from inside Len / Pack and looks at the message): an operation that switches a field and
+// restores it afterwards is visible to every concurrent reader of the message.
+type c16Spy struct {
+	B    []byte
+	look func()
+}
+
+func (d *c16Spy) String() string         { return Hx(d.B) }
+func (d *c16Spy) Parse(s []string) error { return nil }
+func (d *c16Spy) Pack(buf []byte) (int, error) {
+	if d.look != nil {
+		d.look()
+	}
+	if len(buf) < len(d.B) {
+		return 0, dns.ErrBuf
+	}
+	return copy(buf, d.B), nil
+}
+func (d *c16Spy) Unpack(buf []byte) (int, error) {
+	d.B = append([]byte(nil), buf...)
+	return len(buf), nil
+}
+func (d *c16Spy) Copy(dst dns.PrivateRdata) error {
+	dst.(*c16Spy).B = append([]byte(nil), d.B...)
+	return nil
+}
+func (d *c16Spy) Len() int {
+	if d.look != nil {
+		d.look()
+	}
+	return len(d.B)
+}
+
+func observedDuringPack() {
+	const code = 65317
+	dns.PrivateHandle("VSPY", code, func() dns.PrivateRdata { return new(c16Spy) })
+	defer dns.PrivateHandleRemove(code)
+	for _, compress := range []bool{true, false} {
+		m := new(dns.Msg)
+		m.SetQuestion("www.example.org.", dns.TypeA)
+		m.Response, m.Compress, m.Rcode = true, compress, dns.RcodeRefused
+		spy := dns.TypeToRR[code]().(*dns.PrivateRR)
+		spy.Hdr = dns.RR_Header{Name: "www.example.org.", Rrtype: code, Class: 1, Ttl: 5}
+		spy.Data.(*c16Spy).B = []byte{1, 2, 3}
+		m.Answer = []dns.RR{&dns.A{Hdr: dns.RR_Header{Name: "www.example.org.", Rrtype: dns.TypeA, Class: 1, Ttl: 60}, A: []byte{192, 0, 2, 1}}, spy}
+		m.Ns = []dns.RR{&dns.NS{Hdr: dns.RR_Header{Name: "example.org.", Rrtype: dns.TypeNS, Class: 1, Ttl: 60}, Ns: "ns1.example.org."}}
+		want := msgSnap(m)
+		seen := map[string]string{}
+		for name, op := range map[string]func(){
+			"Len": func() { _ = m.Len() }, "Pack": func() { _, _ = m.Pack() }, "PackBuffer": func() { _, _ = m.PackBuffer(make([]byte, 4096)) },
+			"String": func() { _ = m.String() }, "Copy": func() { _ = m.Copy() },
+		} {
+			cur := name
+			spy.Data.(*c16Spy).look = func() {
+				spy.Data.(*c16Spy).look = nil // no recursion through msgSnap
+				if got := msgSnap(m); got != want && seen[cur] == "" {
+					seen[cur] = got
+				}
+				spy.Data.(*c16Spy).look = func() {}
+			}
+			Protect(func() string { op(); return "ok" })
+			spy.Data.(*c16Spy).look = nil
+			st["observed_during_op_checked"]++
+		}
+		for name, got := range seen {
+			Viol("C16/readonly-mutates/during/"+name, name+" changes a field of its argument while it runs (seen from a callback inside it), even if it restores it afterwards", map[string]string{"before": want, "during": got})
+		}
+	}
+}
 
 func emptyContent(r *Rng) {
 	const code = 65316
